@@ -19,9 +19,9 @@ for pid in props:
         'evidence_file': 'evidence/%s.json' % pid,
         'replay_cmd_template': './check %s --replay {path}' % pid,
         'engine': 'coq-model+correspondence',
-        'level_claimed': {'category': 'proof', 'text': c.get('level_text', ''), 'design_ref': c.get('design_ref', 'DESIGN.md section 5, ' + pid)},
+        'level_claimed': {'category': 'proof', 'text': c.get('level_text', ''), 'design_ref': c.get('design_ref', 'DESIGN.md section 7, ' + pid)},
         'level_note': c.get('level_note', '; '.join(c.get('assumptions', []))),
-        'technique': c.get('technique', 'Coq 8.16.1 theorems over an executable Gallina model + differential correspondence check against the Go code (extracted OCaml model) + source-facts tie lemmas'),
+        'technique': c.get('technique', 'machine-checked proof in Coq 8.16.1: theorems over an executable Gallina model; model tied to the Go source on every run by (1) differential correspondence (extracted OCaml model vs real code, same extracted property predicate as runtime oracle), (2) source-facts tie lemmas regenerated from the source, (3) Go->Gallina translation of the function bodies with equality proofs to the model (where gen_Cxx_* theorems exist in Props/Cxx.v)'),
     })
 na_path = os.path.join(ROOT, 'checks', '_not_applicable.json')
 na = json.load(open(na_path)) if os.path.exists(na_path) else {}
@@ -45,7 +45,7 @@ m = {
                  'kind_free_text': 'Coq 8.16.1 development (coq/), source-facts translator (translator/), Go correspondence harness (harness/), extracted OCaml model driver (ocaml/), python driver (check)'}],
     'checks': checks,
     'not_applicable': not_app,
-    'notes': 'All checks rebuild from /repo working tree on every run (translator -> coq/Gen, go build -tags verif of the harness). known_findings.json lists recorded findings and fixed defects.',
+    'notes': 'DESIGN.md: approach, trusted base, per-property notes (section 7), seeded changes and which checks catch them (section 8). All checks rebuild from /repo working tree on every run (translator -> coq/Gen, go build -tags verif of the harness). known_findings.json lists recorded findings and fixed defects.',
 }
 json.dump(m, open(os.path.join(ROOT, 'MANIFEST.json'), 'w'), indent=1)
 print('MANIFEST.json: %d checks, %d not_applicable' % (len(checks), len(not_app)))
